@@ -214,7 +214,8 @@ class SymArray(_np.ndarray):
         if dtype is bool or dtype == _np.bool_:
             flat = [x for x in self.flat]
             if any(isinstance(x, SymBool) for x in flat):
-                return _normbool(_np.asarray(self))
+                # numpy's astype(bool) always yields dtype bool (code asserts on it): concretise by forking the undecided cells
+                return _wrap(concretise_mask(_np.asarray(self)))
             if any(isinstance(x, SymReal) for x in flat):
                 f = _np.frompyfunc(lambda x: (x != 0), 1, 1)
                 return _normbool(f(_np.asarray(self)))
@@ -227,13 +228,13 @@ class SymArray(_np.ndarray):
 
     def argmax(self, axis=None, out=None, **kw):
         if self.dtype != object:
-            return _np.asarray(self).argmax(axis=axis)
-        return _argbest(self, axis, operator.gt)
+            return _wrap(_np.asarray(self).argmax(axis=axis))
+        return _wrap(_argbest(self, axis, operator.gt))
 
     def argmin(self, axis=None, out=None, **kw):
         if self.dtype != object:
-            return _np.asarray(self).argmin(axis=axis)
-        return _argbest(self, axis, operator.lt)
+            return _wrap(_np.asarray(self).argmin(axis=axis))
+        return _wrap(_argbest(self, axis, operator.lt))
 
     def copy(self, *a, **kw):
         return _np.ndarray.copy(self, *a, **kw).view(SymArray)
@@ -649,14 +650,14 @@ class NumpyFacade:
     def argmax(self, a, axis=None, **kw):
         a = _obj(a)
         if a.dtype != object:
-            return _np.argmax(a, axis=axis)
-        return _argbest(a, axis, operator.gt)
+            return _wrap(_np.argmax(a, axis=axis))
+        return _wrap(_argbest(a, axis, operator.gt))
 
     def argmin(self, a, axis=None, **kw):
         a = _obj(a)
         if a.dtype != object:
-            return _np.argmin(a, axis=axis)
-        return _argbest(a, axis, operator.lt)
+            return _wrap(_np.argmin(a, axis=axis))
+        return _wrap(_argbest(a, axis, operator.lt))
 
     def abs(self, a):
         if isinstance(a, _np.ndarray):
